@@ -1,6 +1,7 @@
 """C11 / C12 / C13: generated modules -> real traces -> real build_module_stubs_from_traces -> stub text
 -> abs_stub projection; TLC validates against MTStubTrace (P-layer clauses from MTSignature)."""
 import concurrent.futures
+import functools
 import importlib
 import inspect
 import itertools
@@ -14,6 +15,7 @@ from . import absmodel, core, envgen, stubmodel, tlc, universe
 from .absmodel import ABSENT, T
 
 HEADER = '''"""GENERATED module for stub checks"""
+import functools
 from typing import Any, Dict, List, Optional, Set, Tuple
 from zfoo import ExtId
 import zutil
@@ -81,7 +83,7 @@ def render_params(params, recv, recv_ann=None, recv_posonly=False):
 
 
 def func_source(f, ind):
-    recv = {"instance": "self", "class": "cls", "property": "self"}.get(f["fkind"])
+    recv = {"instance": "self", "class": "cls", "property": "self", "cached": "self"}.get(f["fkind"])
     lines = []
     sub = "my_" if f.get("deco_sub") else ""
     if f["fkind"] == "class":
@@ -90,6 +92,8 @@ def func_source(f, ind):
         lines.append(ind + "@" + sub + "staticmethod")
     elif f["fkind"] == "property":
         lines.append(ind + "@" + sub + "property")
+    elif f["fkind"] == "cached":
+        lines.append(ind + "@functools.cached_property")
     if f.get("wraps"):
         lines.append(ind + "@wraps_deco")
     ret = " -> " + f["ret_ann"] if f.get("ret_ann") else ""
@@ -196,6 +200,8 @@ def live_function(mod, f):
         raw = raw.__func__
     elif isinstance(raw, property):
         raw = raw.fget
+    elif isinstance(raw, functools.cached_property):
+        raw = raw.func
     return inspect.unwrap(raw)        # the function whose code runs (what a trace refers to), below functools.wraps decorators
 
 
@@ -246,7 +252,8 @@ def run_module_case(case):
                 for c in f["container"]:
                     owner = getattr(owner, c)
                 # like the real tracer, a trace of a method records the receiver too (self: the class, cls: Type[class])
-                recv_arg = {"instance": {"self": owner}, "property": {"self": owner}, "class": {"cls": typing.Type[owner]}}.get(f["fkind"], {})
+                recv_arg = {"instance": {"self": owner}, "property": {"self": owner}, "cached": {"self": owner},
+                            "class": {"cls": typing.Type[owner]}}.get(f["fkind"], {})
                 for tr in f.get("traces") or []:
                     out.append(CallTrace(lf, dict(recv_arg, **{n: rt(a) for n, a in tr["args"].items()}), rt(tr.get("ret")), rt(tr.get("yld"))))
             return out
@@ -314,11 +321,16 @@ def run_module_case(case):
             if s is not None:
                 want = {"class": ["classmethod"], "static": ["staticmethod"], "property": ["property"]}.get(f["fkind"], [])
                 frec["decok"] = s["decorators"] == want
+                if f["fkind"] == "cached":     # no decorator is prescribed for it; if one is written, it must be a name the stub provides
+                    frec["decok"] = s["decorators"] in ([], ["cached_property"], ["functools.cached_property"])
+                    for dname in s["decorators"]:
+                        if dname.split(".")[0] not in ev.ns:
+                            rec["tdok"] = False
                 frec["asyncok"] = s["async"] == bool(f.get("is_async"))
                 frec["stub"] = [{"name": p["name"], "kind": p["kind"], "default": p["default"]} for p in s["params"]]
                 frec["gotret"] = s["ret"]
                 got = {p["name"]: p["ann"] for p in s["params"]}
-                has_self = f["fkind"] in ("instance", "class", "property")
+                has_self = f["fkind"] in ("instance", "class", "property", "cached")
                 for idx, p in enumerate(sig.parameters.values()):
                     annotated = p.name in getattr(lf, "__annotations__", {})
                     frec["cells"].append({
@@ -443,6 +455,35 @@ def gen_c12(tier, seed):
             for via in (False, True):
                 cases.append({"funcs": [dict(f), dict(plain)], "strategy": "REPLICATE", "k": 0, "family": "c12_functools_wraps_decorated",
                               "via_cli": via})
+    # a functools.cached_property (no decorator is prescribed in the stub; whatever is written must resolve)
+    for via in (False,):      # (not through the store: on this tree a stored trace of such a getter cannot exist - the tracer's lookup
+                              # does not reach it - and decoding rejects it)
+        f = {"name": "size", "container": ["Cls"], "fkind": "cached", "params": [], "traces": [{"args": {}, "ret": INT, "yld": None}]}
+        g = {"name": "other", "container": ["Cls"], "fkind": "instance", "params": [{"name": "a", "kind": "poskw", "default": None}], "traces": traces_for([{"name": "a", "kind": "poskw"}])}
+        cases.append({"funcs": [f, g], "strategy": "REPLICATE", "k": 0, "family": "c12_functools_cached_property", "via_cli": via})
+    # function and parameter names that START with the name of a module the signature imports (plus one more character),
+    # or are spelled exactly like it
+    ZA, ZB = T("cls", "zutil.A"), T("cls", "zfoo.Baz")
+    for n, (fname, pnames) in enumerate([("zutil_total", ["zutil_count", "zfoo_x"]), ("zfoox", ["zutil", "zfoo"]), ("total", ["zutilities", "zfoo_"]),
+                                         ("zutilx", ["a", "zutil1"])]):
+        ps = [{"name": pn, "kind": "poskw", "default": None} for pn in pnames]
+        f = {"name": fname, "container": [], "fkind": "module", "params": ps,
+             "traces": [{"args": {pnames[0]: ZA, pnames[1]: ZB}, "ret": ZA, "yld": None}]}
+        m = dict(f, name=fname + "_m", container=["Cls"], fkind="instance")
+        cases.append({"funcs": [f, m], "strategy": "REPLICATE", "k": 0, "family": "c12_names_starting_with_an_imported_module_name"})
+    # functions whose signatures are equal up to the ORDER of their keyword-only parameters, in one module
+    kw = lambda names: [{"name": x, "kind": "kwonly", "default": ("1" if x == "depth" else None)} for x in names]  # noqa: E731
+    for fk, cont in (("module", []), ("instance", ["Cls"])):
+        fs = [{"name": "box_%d" % j, "container": cont, "fkind": fk, "params": kw(order), "traces": traces_for(kw(order))}
+              for j, order in enumerate((["width", "height", "depth"], ["height", "width", "depth"], ["depth", "height", "width"]))]
+        cases.append({"funcs": fs, "strategy": "REPLICATE", "k": 0, "family": "c12_keyword_only_order"})
+        cases.append({"funcs": list(reversed([dict(x) for x in fs])), "strategy": "REPLICATE", "k": 0, "family": "c12_keyword_only_order"})
+    # source-annotated parameters with defaults under every strategy (names, kinds, order and defaults are the real ones)
+    for n, ps0 in enumerate(sh[::7]):
+        ps = [dict(p, ann=("int" if i % 2 == 0 else None)) for i, p in enumerate(ps0)]
+        for strategy in ("OMIT", "IGNORE"):
+            f = {"name": "ann_shape_%d" % n, "container": [], "fkind": "module", "params": ps, "ret_ann": "int", "traces": traces_for(ps)}
+            cases.append({"funcs": [f], "strategy": strategy, "k": 0, "family": "c12_annotated_shapes_other_strategies", "via_cli": n % 4 == 0})
     # methods declared through SUBCLASSES of classmethod / staticmethod / property
     for n, (fk, ps) in enumerate([(fk, ps) for fk in ("class", "static", "property") for ps in (
             [], [{"name": "x", "kind": "poskw", "default": None}, {"name": "y", "kind": "kwonly", "default": "None"}])
@@ -642,6 +683,11 @@ def gen_c11(tier, seed, env_text):
                     "traces": [{"args": {"a": subst_marker(use_ty, "$OWN", "$OTHER_OWN")}, "ret": None, "yld": None}]}
             cases.append({"funcs": [use2], "other": [o_mk], "other_first": first, "strategy": "REPLICATE", "k": 0,
                           "family": "c11_parameterless_function_returning_own_class"})
+    # a functools.cached_property getter: whatever decorator the stub writes for it must be a name the stub provides
+    cp = {"name": "size", "container": ["Cls"], "fkind": "cached", "params": [], "traces": [{"args": {}, "ret": INT, "yld": None}]}
+    cases.append({"funcs": [cp], "strategy": "REPLICATE", "k": 0, "family": "c11_functools_cached_property"})
+    cases.append({"funcs": [dict(cp, traces=[{"args": {}, "ret": T("cls", "zutil.A"), "yld": None}])], "strategy": "REPLICATE", "k": 0,
+                  "family": "c11_functools_cached_property"})
     # replicated source annotations that are strings / NewTypes / classes of other modules (no trace for that position)
     for ann in ("'Own'", "ExtId", "zutil.A", "Optional['Own']", "List[ExtId]", "zutil.Reg.Slot[int]", "List[zutil.Reg.Slot[zutil.A]]",
                 "zutil.Outer.Inner", "Dict[str, zutil.Outer.Inner]"):
